@@ -25,8 +25,15 @@ func payloadMarkers(c *Ctx, pa *provAnalysis, fr *Frame) map[string]bool {
 			}
 			switch {
 			case isNamed(fa.X.Type(), "archive/tar", "Header") && fieldName(fa.X.Type(), fa.Field) == "Typeflag":
+				// constant here, or a helper's parameter whose value the frame knows
+				tf, known := int64(0), false
 				if k, ok := x.Val.(*ssa.Const); ok && k.Value != nil {
-					switch k.Int64() {
+					tf, known = k.Int64(), true
+				} else if li.F != nil {
+					tf, known = avInt(li.F.Eval(x.Val))
+				}
+				if known {
+					switch tf {
 					case '5':
 						out["DIRFLAG"] = true
 					case '2':
@@ -379,7 +386,7 @@ func checkPlannerDefaults(c *Ctx, r *Report) {
 			}
 		})
 	}
-	r.Floor("F2", modeStores, 4)
+	r.Floor("F2", modeStores, 3)
 }
 
 func isBinOp(v ssa.Value) bool { _, ok := v.(*ssa.BinOp); return ok }
